@@ -15,7 +15,8 @@ def S(s):
     return _STR[s]
 
 THEOREMS = ['C04_B_expand_exact', 'C04_B_tree_tidy', 'C04_collapse_is_expand', 'C04_collapse_total',
-            'C04_collapse_explicit', 'C04_collapse_none_refuted', 'C04_example']
+            'C04_collapse_explicit', 'C04_collapse_none_refuted', 'C04_A_sound', 'C04_A_sound_root', 'C04_A_added_ok',
+            'C04_A_sound_sentence', 'C04_A_complete_partial', 'C04_example']
 GEN_DEPS = []
 RULE = ('random ambiguous grammars (<=4 non-terminals, <=3 alternatives of length <=3, ?rules, _inlined rules, aliases, '
         '[optional] with placeholders, !keep-all rules, filtered anonymous tokens, EBNF * and +), three lexers (basic, '
@@ -356,6 +357,208 @@ def coq_tree(t):
     if t[0] == 'tok':
         return '(Tk %s %s)' % (S(t[1]), S(t[2]))
     return '(Nd %s %s)' % (S(t[1]), L([coq_tree(c) for c in t[2]]))
+
+
+# ----------------------------------------------------------------------------------------------
+# layer A: the forest as a graph (labels with spans), for Forest/ExplicitBuildCheck.check_forestA
+# ----------------------------------------------------------------------------------------------
+IMPORTS_A = 'From LV Require Import Cfg.Grammar Forest.ExplicitBuild Forest.ExplicitBuildCheck.'
+MAX_GRAPH = 600
+
+
+def graph_families(root):
+    """families of all nodes reachable from root: [(label, (rule, left_label|None, right_label|None))];
+    label = ('S', name, i, j) | ('I', rule, ptr, i, j) | ('T', type, value, i, j).  None when too big."""
+    from lark.parsers.earley_forest import TokenNode
+
+    def label(n):
+        if n.is_intermediate:
+            return ('I', n.s[0], n.s[1], n.start, n.end)
+        return ('S', str(n.s.name), n.start, n.end)
+    fams = []
+    seen = set()
+    stack = [root]
+    while stack:
+        n = stack.pop()
+        if id(n) in seen:
+            continue
+        seen.add(id(n))
+        if len(seen) > MAX_GRAPH:
+            return None
+        for p in n.children:
+            left = None
+            if p.left is not None:
+                left = label(p.left)
+                stack.append(p.left)
+            right = None
+            if p.right is not None:
+                if isinstance(p.right, TokenNode):
+                    m = p.left.end if p.left is not None else n.start
+                    right = ('T', str(p.right.token.type), str(p.right.token), m, n.end)
+                else:
+                    right = label(p.right)
+                    stack.append(p.right)
+            fams.append((label(n), (p.rule, left, right)))
+    return fams
+
+
+def export_graph_case(root, parser, lexer, text, prefix, fams=None):
+    """(coq_term, defs) for one acase, or None when too big / not exportable.
+    Match, length and occurrence tables are computed here from the terminals' regexps and the text (or from the
+    basic lexer's token list), not from what the parser did."""
+    import re
+    if fams is None:
+        fams = graph_families(root)
+    if fams is None:
+        return None
+    nts, tms = {}, {}
+
+    def nt(name):
+        return nts.setdefault(str(name), len(nts))
+
+    def tm(name):
+        return tms.setdefault(str(name), len(tms))
+
+    def sym(s):
+        return '(T %d)' % tm(s.name) if s.is_term else '(NT %d)' % nt(s.name)
+    rule_ref = {}
+    defs = []
+    for k, r in enumerate(parser.rules):
+        nm = '%s_c%d' % (prefix, k)
+        rule_ref[r] = nm
+        defs.append('Definition %s := mkRule %d %s.' % (nm, nt(r.origin.name), L([sym(x) for x in r.expansion])))
+    lexemes = {}
+
+    def label(lb):
+        if lb[0] == 'I':
+            return '(NInter nat %s %d %d %d)' % (rule_ref[lb[1]], lb[2], lb[3], lb[4])
+        if lb[0] == 'S':
+            return '(NSym nat %d %d %d)' % (nt(lb[1]), lb[2], lb[3])
+        x = lexemes.setdefault((lb[1], lb[2]), len(lexemes))
+        return '(NTok nat %d %d %d %d)' % (tm(lb[1]), x, lb[3], lb[4])
+
+    def opt(lb):
+        return 'None' if lb is None else '(Some %s)' % label(lb)
+    cfams = ['(%s, (%s, %s, %s))' % (label(lb), rule_ref[r], opt(l), opt(rt)) for lb, (r, l, rt) in fams]
+    lex_by_id = sorted(lexemes.items(), key=lambda kv: kv[1])
+    if lexer == 'basic':
+        toks = basic_tokens(parser, text)
+        n_in = len(toks)
+        tlen = [1] * len(lex_by_id)
+        tmt = [(tm(ty), x) for (ty, v), x in lex_by_id]
+        occ = [(x, i) for (ty, v), x in lex_by_id for i, t in enumerate(toks) if t == (ty, v)]
+    else:
+        n_in = len(text)
+        tlen = [len(v) for (ty, v), x in lex_by_id]
+        pats = {td.name: re.compile(td.pattern.to_regexp()) for td in parser.terminals}
+        tmt = [(tm(name), x) for name, pat in pats.items() for (ty, v), x in lex_by_id if pat.fullmatch(v)]
+        occ = [(x, i) for (ty, v), x in lex_by_id for i in range(n_in + 1) if text.startswith(v, i)]
+    pairs = lambda l: L(['(%d, %d)' % ab for ab in l])
+    root_label = ('S', str(root.s.name), root.start, root.end)
+    term = '(mkA %s %s %s %s %d %d %s %s)' % (L([rule_ref[r] for r in parser.rules]), pairs(tmt), L(['%d' % x for x in tlen]),
+                                             pairs(occ), nt('start'), n_in, label(root_label), L(cfams))
+    return term, defs
+
+
+def spec_families(rules, start, n, tmatch):
+    """The relation `added` of Forest/ExplicitBuild_proofs.v evaluated directly (chart closure by the four chart rules,
+    then one family per instance of the three add_family rules); scanning generalised to lexemes of any length.
+    Same label tuples as graph_families."""
+    by_origin = {}
+    for r in rules:
+        by_origin.setdefault(r.origin.name, []).append(r)
+    cols = [set() for _ in range(n + 1)]
+    for r in by_origin.get(start, ()):
+        cols[0].add((r, 0, 0))
+    for k in range(n + 1):
+        col = cols[k]
+        changed = True
+        while changed:
+            changed = False
+            for (r, d, j) in list(col):
+                if d < len(r.expansion):
+                    s = r.expansion[d]
+                    if not s.is_term:
+                        for r2 in by_origin.get(s.name, ()):
+                            if (r2, 0, k) not in col:
+                                col.add((r2, 0, k))
+                                changed = True
+                else:
+                    for (r0, d0, j0) in list(cols[j]):
+                        if d0 < len(r0.expansion) and not r0.expansion[d0].is_term and r0.expansion[d0].name == r.origin.name:
+                            if (r0, d0 + 1, j0) not in col:
+                                col.add((r0, d0 + 1, j0))
+                                changed = True
+        for (r, d, j) in col:
+            if d < len(r.expansion) and r.expansion[d].is_term:
+                for (e, tok) in tmatch(r.expansion[d].name, k):
+                    if e <= n:
+                        cols[e].add((r, d + 1, j))
+
+    def ilabel(r, d, i, j):
+        return ('S', str(r.origin.name), i, j) if d == len(r.expansion) else ('I', r, d, i, j)
+
+    def inode(r, d, j, k):
+        return None if d == 0 else ('I', r, d, j, k)
+    fams = set()
+    for k in range(n + 1):
+        for (r, d, j) in cols[k]:
+            if d == 0 and len(r.expansion) == 0:
+                fams.add((('S', str(r.origin.name), k, k), (r, None, None)))
+            if d < len(r.expansion):
+                s = r.expansion[d]
+                if s.is_term:
+                    for (e, tok) in tmatch(s.name, k):
+                        if e <= n:
+                            fams.add((ilabel(r, d + 1, j, e), (r, inode(r, d, j, k), ('T', tok[0], tok[1], k, e))))
+                else:
+                    for e in range(k, n + 1):
+                        for (r2, d2, j2) in cols[e]:
+                            if j2 == k and d2 == len(r2.expansion) and r2.origin.name == s.name:
+                                fams.add((ilabel(r, d + 1, j, e), (r, inode(r, d, j, k), ('S', s.name, k, e))))
+    return fams
+
+
+def reachable_families(fams, root_label):
+    by_label = {}
+    for lb, f in fams:
+        by_label.setdefault(lb, []).append(f)
+    out = set()
+    seen = set()
+    stack = [root_label]
+    while stack:
+        lb = stack.pop()
+        if lb in seen:
+            continue
+        seen.add(lb)
+        for f in by_label.get(lb, ()):
+            out.add((lb, f))
+            for c in (f[1], f[2]):
+                if c is not None and c[0] != 'T':
+                    stack.append(c)
+    return out
+
+
+def added_vs_forest(parser, lexer, text, fams, root):
+    """None if the captured forest has exactly the families of the specification reachable from the root"""
+    tmt = make_tmatch(parser, lexer, text)
+    if tmt is None:
+        return 'input accepted although the basic lexer cannot tokenise it'
+    n, tmatch = tmt
+    spec = spec_families(parser.rules, 'start', n, tmatch)
+    root_label = ('S', str(root.s.name), root.start, root.end)
+    if root_label != ('S', 'start', 0, n):
+        return 'root of the forest is %r' % (root_label,)
+    got = set(fams)
+    if len(got) != len(fams):
+        return 'a family occurs twice under one node'
+    extra = got - spec
+    if extra:
+        return 'family not generated by the add_family rules over the chart: %r' % (sorted(map(repr, extra))[0],)
+    missing = reachable_families(spec, root_label) - got
+    if missing:
+        return 'family of the specification missing from the forest: %r' % (sorted(map(repr, missing))[0],)
+    return None
 
 
 # ----------------------------------------------------------------------------------------------
@@ -778,7 +981,7 @@ def count_expansions(t, cap=10 ** 6):
     return n
 
 
-def run_stream(ctx, stream, ngrammars, cyclic_wanted, maxlen, cases, meta, defs):
+def run_stream(ctx, stream, ngrammars, cyclic_wanted, maxlen, cases, meta, defs, acases=None):
     from lark.exceptions import GrammarError
     from lark import Tree
     rng = ctx.rng
@@ -813,6 +1016,23 @@ def run_stream(ctx, stream, ngrammars, cyclic_wanted, maxlen, cases, meta, defs)
                       ambig_nodes=(min(5, repr(obs['tree']).count('_ambig')) if obs['status'] == 'ok' else 'n/a'))
             if verdict:
                 ctx.violation('property-oracle:%s' % verdict[0], witness(g, lexer, text, opts), True, verdict[1])
+            if obs['status'] in ('ok', 'ok-huge') and acases is not None:
+                gf = graph_families(obs['root'])
+                ga = export_graph_case(obs['root'], parser, lexer, text, 'a%s%d_%d' % (stream[0], made, len(acases[0])), gf)
+                if gf is not None:
+                    msg = added_vs_forest(parser, lexer, text, gf, obs['root'])
+                    ctx.count('added-vs-forest', key=(g, lexer, text), nontrivial=len(gf) > 3)
+                    if msg:
+                        # the forest differs from the specification: a failing input of the property itself is one where the
+                        # tree set differs (reported by the oracle above); otherwise report the broken tie
+                        if not verdict:
+                            ctx.violation('correspondence:Forest/ExplicitBuild.added vs earley.py forest',
+                                          dict(witness(g, lexer, text, opts), no_longer_checks='families of the SPPF = families of the specification'),
+                                          False, msg)
+                if ga is not None:
+                    acases[0].append(ga[0])
+                    acases[1].extend(ga[1])
+                    acases[2].append((g, lexer, text, opts, verdict))
             if obs['status'] != 'ok':
                 continue
             try:
@@ -843,9 +1063,12 @@ def run_stream(ctx, stream, ngrammars, cyclic_wanted, maxlen, cases, meta, defs)
 def correspond(ctx):
     cases, meta, defs = [], [], []
     k = 3 if ctx.widen else 1
-    run_stream(ctx, 'acyclic', ctx.scale(70, 700) * k, False, 4, cases, meta, defs)
-    run_stream(ctx, 'cyclic', ctx.scale(20, 200) * k, True, 3, cases, meta, defs)
+    acases = ([], [], [])
+    run_stream(ctx, 'acyclic', ctx.scale(70, 700) * k, False, 4, cases, meta, defs, acases)
+    run_stream(ctx, 'cyclic', ctx.scale(20, 200) * k, True, 3, cases, meta, defs, acases)
     exotic_f6(ctx, cases, meta, defs)
+    check_layer_a(ctx, acases)
+    ctx.extra['layer_A_forests_checked'] = len(acases[0])
     # Coq: the model on the captured forests
     bad, errs = ctx.coq_bad_indices('c04', IMPORTS, 'check_case', cases, chunk=150,
                                     extra_defs='\n'.join(_STR_DEFS + defs))
@@ -859,6 +1082,23 @@ def correspond(ctx):
                       dict(witness(g, lexer, text, opts), no_longer_checks='model/implementation agreement on this case'),
                       False, 'model and implementation disagree on the explicit tree (or CollapseAmbiguities result, or the '
                              'forest is not of the shape assumed by the theorem); the derivation oracle holds on this case')
+
+
+def check_layer_a(ctx, acases):
+    """Coq: every family of every captured forest (cyclic ones included) has the local form that A_sound assumes"""
+    terms, adefs, ameta = acases
+    bad, errs = ctx.coq_bad_indices('c04a', IMPORTS_A, 'check_forestA', terms, chunk=150, extra_defs='\n'.join(adefs))
+    for e in errs:
+        ctx.violation('correspondence:coq-eval-A', {'no_longer_checks': 'Coq evaluation of check_forestA', 'error': e}, False, e[:300])
+    for i in bad:
+        g, lexer, text, opts, verdict = ameta[i]
+        if verdict:
+            continue
+        ctx.violation('correspondence:Forest/ExplicitBuild.fam_ok vs earley.py add_family',
+                      dict(witness(g, lexer, text, opts), no_longer_checks='local form of the packed families of the SPPF'),
+                      False, 'a packed family of the captured forest is not of the form (rule, intermediate node of the same '
+                             'rule and start, child matching the next symbol over adjacent spans); the derivation oracle '
+                             'holds on this case')
 
 
 def collapse_verdict(tree):
